@@ -207,6 +207,12 @@ def rules_G4(u, rep):
                     rep.oblige(ok)
                     if not ok:
                         rep.add("G4", "%s:value-before-check" % meth, "%s reads the value before a header check that can still fail (%s)" % (meth, out[1]), b.loc())
+                    # a rejection decided before any header field was read cannot depend on the header: it pre-empts
+                    # the specific header errors for the inputs it applies to
+                    ok = bool(hdr)
+                    rep.oblige(ok)
+                    if not ok:
+                        rep.add("G4", "%s:pre-header-exit" % meth, "%s can fail (%s) before it has read any header field: on those inputs a corrupted header is not reported by its own error" % (meth, out[1]), b.loc())
             if nok != 1:
                 rep.add("G4", "%s:paths" % meth, "%s has %d accepting paths, expected 1" % (meth, nok), b.loc())
     rep.floor("Deserialize entry points", found, 2)
